@@ -119,6 +119,7 @@ func checkC16(c *Ctx) {
 	ruleCancelAwareWaits(c, dv)
 	ruleNoCrossTalk(c, dv)
 	ruleClientClosed(c, dv, "R16.8")
+	ruleNoStrayGoroutines(c, dv)
 	c.MinCount("R16.1", 6)
 	c.MinCount("R16.2", 4)
 	c.MinCount("R16.3", 4)
@@ -906,4 +907,53 @@ func ruleLockBalance(c *Ctx, pkgPath, rule string) {
 	if n == 0 {
 		c.Undec(rule, "lock-balance/"+pkgPath, "-", "no locking function found")
 	}
+}
+
+// ruleNoStrayGoroutines: R16.9 "leaves no background activity behind": the only goroutines device code starts are the helpers
+// ProcessEvents starts and joins (R16.2).  Any other go statement in the device package - in a function, method or closure
+// that event processing, the LED loop, MIDI-input tracking or the clean-up can reach - runs detached from the device's
+// WaitGroup: it can still be writing to the shared MIDI output after ProcessEvents has returned (and after main closed that
+// channel), and its messages interleave with what the event loop emits.
+func ruleNoStrayGoroutines(c *Ctx, dv *dev) {
+	pe := dv.fn["ProcessEvents"]
+	var stray []string
+	n := 0
+	for _, fn := range c.P.Funcs {
+		top := topFunc(fn)
+		if top.Pkg == nil || top.Pkg.Pkg.Path() != pkgDevice {
+			continue
+		}
+		for _, b := range fn.Blocks {
+			for _, in := range b.Instrs {
+				g, ok := in.(*ssa.Go)
+				if !ok {
+					continue
+				}
+				n++
+				if fn == pe {
+					continue // accounted for by R16.2
+				}
+				if dv.newHelpers()[fn] && dv.ownerOf(fn) == pe {
+					// a helper extracted from ProcessEvents that hands the WaitGroup to what it starts
+					joined := false
+					for _, a := range g.Call.Args {
+						if strings.HasSuffix(a.Type().String(), "sync.WaitGroup") {
+							joined = true
+						}
+					}
+					if joined {
+						continue
+					}
+				}
+				stray = append(stray, fmt.Sprintf("%s at %s", shortFn(fn), c.P.Pos(g.Pos())))
+			}
+		}
+	}
+	sort.Strings(stray)
+	key := "device/no-goroutine-outside-the-joined-helpers"
+	bad := ""
+	if len(stray) > 0 {
+		bad = "a goroutine is started outside ProcessEvents' joined helpers (" + strings.Join(stray, "; ") + "): nothing waits for it when the device ends, it may still emit to the shared MIDI output after ProcessEvents returned"
+	}
+	c.Check(bad == "", "R16.9", key, c.P.Pos(pe.Pos()), fmt.Sprintf("%d go statement(s) in package device, all in ProcessEvents (joined through the WaitGroup, R16.2)", n), bad)
 }
